@@ -13,7 +13,7 @@ from typing import TYPE_CHECKING, Literal
 
 import libcst as cst
 
-from pynguin.assertion.assertion import ExceptionAssertion
+from pynguin.assertion.assertion import ExceptionAssertion, ReferenceAssertion
 from pynguin.utils import randomness
 
 if TYPE_CHECKING:
@@ -596,6 +596,13 @@ class TestCase:  # noqa: PLR0904
         for i in range(len(self._statements) - 1, -1, -1):
             stmt = self._statements[i]
             bv = stmt.bound_variable
+            # Variables (or fields thereof) that an assertion of this statement refers
+            # to are read by the rendered assertion, i.e., they are used.
+            alive_vars.update(
+                assertion.source.split(".", 1)[0]
+                for assertion in stmt.assertions
+                if isinstance(assertion, ReferenceAssertion)
+            )
 
             if bv is not None:
                 if bv in alive_vars:
@@ -610,6 +617,9 @@ class TestCase:  # noqa: PLR0904
                             node=new_node,
                             bound_variable=None,
                             bound_type=None,
+                            assertions=list(stmt.assertions),
+                            accessible=stmt.accessible,
+                            ml_info=stmt.ml_info,
                         )
                     # Even if unused, the RHS might use other variables
                     alive_vars.update(_get_used_variables(stmt))
